@@ -1123,7 +1123,7 @@ func (u *Unit) typeAssert(st *State, x *ast.TypeAssertExpr, commaOk bool) (Val, 
 func (u *Unit) typeAssertVal(st *State, v Val, t types.Type, commaOk bool, pos token.Pos) (Val, string) {
 	if isInterface(t) {
 		// interface-to-interface: the implements relation is not modelled
-		ok := u.uninterp("implements_"+fmt.Sprint(u.sc.tid(t)), []string{"Int"}, "Bool", app("dyntype", v.T))
+		ok := app(u.sc.implementsFn(t), app("dyntype", v.T))
 		okT := sAnd(sNot(sEq(v.T, "0")), ok)
 		if !commaOk {
 			if u.contract == nil || !u.contract.MayPanic || u.contract.Sweep {
